@@ -17,5 +17,6 @@ def run(run, tier, seed, args):
     run.assumptions += [
         "`tuples` and `allitems` are finite sequences; elements compare by identity/equality of the modelled value (hash/eq of user objects not modelled)",
         "Lean lemma pred_closed_iff_cycle (lemmas/Cycle.lean): a non-empty finite vertex set in which every member has a predecessor in the set contains a directed cycle — turns the proved exceptional postcondition into the property's wording",
+        "find_cycles completeness: the cycle is a rigid ghost sequence; induction along it is the axiom chain_in_intro (lemmas/Chain.lean); set iteration order is an arbitrary duplicate-free enumeration; the defaultdict's keys are exactly the nodes with an outgoing edge (proved as an invariant of the edge-building loop)",
         "termination of the while loop (each round removes a non-empty output) needs filter_length_lt; partial correctness is what the SMT obligations give",
     ]
